@@ -6,5 +6,5 @@ cd "$(dirname "$0")/.."
 for spec in "1 C14 C03" "2 C02 C03 C13" "3 C13 C10 C02" "4 C02 C03" "5 C13 C09 C01" "6 C17" "7 C16 C01" "8 C08 C04" "9 C03 C14" "10 C15 C04" "11 C20" "12 C06 C18"; do
   set -- $spec; n=$1; shift
   echo "=== harmless refactoring $n"
-  tools/try_mutant.sh seeded/harmless/patch$n.diff "$@" 2>&1 | grep -v "^WARNING" | grep -E "^\[|apply|uncommitted"
+  tools/try_mutant.sh "$PWD/seeded/harmless/patch$n.diff" "$@" 2>&1 | grep -v "^WARNING" | grep -E "^\[|apply|uncommitted"
 done
